@@ -436,16 +436,138 @@ def space(tier):
                 yield pre, marker, gs
 
 
+def space_X(tier):
+    """several condition groups of ONE item carry expressions with the same text (same identifiers c0, c1, ...) bound to
+    different condition definitions per group"""
+    ops = 1 if tier == "quick" else 2
+    for shape in T.trees_upto(ops, [0, 1, 2]):
+        if T.count_ops(shape) < 1:
+            continue
+        for scopes in ((0, 1), (0, 2), (1, 2), (0, 1, 2)):
+            for negs in ((False,) * 3, (True, False, False), (False, False, True)):
+                groups = [None, None, None]
+                for sc in scopes:
+                    names = sorted(EXPR_IDS[sc])
+                    groups[sc] = ("expr", _map_leaves(shape, lambda i: names[i]), negs[sc])
+                for pre in PRES_SMALL:
+                    for marker in ("suffix", "upper"):
+                        yield pre, marker, tuple(groups)
+
+
+def _map_leaves(t, fn):
+    if t[0] == "leaf":
+        return ("leaf", fn(t[1]))
+    return (t[0],) + tuple(_map_leaves(x, fn) for x in t[1:])
+
+
+# ---- sub-space G: a preceding item that REPLACES a detection item by a group of new items (hashes_fields)
+RULE_G = {"title": "g", "logsource": {"category": "process_creation", "product": "windows"},
+          "detection": {"hs": {"Hashes|contains": ["MD5=0123456789abcdef0123456789abcdef", "SHA1=fedcba9876543210fedcba9876543210fedcba98"], "f1": "a*"}, "condition": "hs"}}
+PRE_G = {"hf": {"id": "hf", "type": "hashes_fields", "valid_hash_algos": ["MD5", "SHA1"], "field_prefix": "File"}, "ps": PRE["ps"]}
+DI_POOL_G = {"app_hf": {"type": "processing_item_applied", "processing_item_id": "hf"}, "ms_a": DI_POOL["ms_a"], "st_kv": DI_POOL["st_kv"]}
+RULE_POOL_G = {"app_hf": {"type": "processing_item_applied", "processing_item_id": "hf"}}
+FN_POOL_G = {"inc": {"type": "include_fields", "fields": ["FileMD5", "Hashes", "f1"]}}
+
+
+def space_G(tier):
+    dig = [None, ("list", [], "and", True)]
+    for n in DI_POOL_G:
+        for neg in (False, True):
+            dig.append(("list", [n], "and", neg))
+    for a, b in itertools.combinations(sorted(DI_POOL_G), 2):
+        for linking in ("and", "or"):
+            for neg in (False, True):
+                dig.append(("list", [a, b], linking, neg))
+    for t in T.trees_upto(2 if tier == "quick" else 3, sorted(DI_POOL_G)):
+        if T.count_ops(t) >= 1:
+            dig.append(("expr", t, False))
+    rg = [None, ("list", ["app_hf"], "and", False), ("list", ["app_hf"], "and", True)]
+    fg = [None, ("list", ["inc"], "and", False), ("list", ["inc"], "and", True)]  # 'applied' as a field-name condition on fields created by the group is not defined by the statement: not swept
+    for pre in ((), ("hf",), ("ps", "hf"), ("hf", "ps")):
+        for d in dig:
+            for r in rg:
+                for f in fg:
+                    yield pre, "suffix", (r, d, f)
+
+
+def judge_G(res, st, pre, groups):
+    from sigma.exceptions import SigmaError
+    from sigma.processing.pipeline import ProcessingPipeline
+    from sigma.rule import SigmaRule
+    from sigma.rule.detection import SigmaDetection
+
+    case = {"sub": "G", "pre": list(pre), "groups": repr(groups)}
+    res["evaluations"] += 1
+    st.transition(len(pre) + 1)
+    item = {"id": "judged", "type": "field_name_suffix", "suffix": "_M"}
+    item.update(group_yaml("rule", groups[0], RULE_POOL_G))
+    item.update(group_yaml("detection_item", groups[1], DI_POOL_G))
+    item.update(group_yaml("field_name", groups[2], FN_POOL_G))
+    pd = {"name": "c13g", "priority": 1, "transformations": [copy.deepcopy(PRE_G[p]) for p in pre] + [item]}
+    try:
+        pipe = ProcessingPipeline.from_dict(pd)
+        rule = SigmaRule.from_dict(copy.deepcopy(RULE_G))
+        pipe.apply(rule)
+    except SigmaError as e:
+        add_violation(res, f"G:sigma-error-on-valid-pipeline:{type(e).__name__}", case, "applies", str(e)[:200])
+        return
+    except Exception as e:
+        add_violation(res, f"G:crash:{type(e).__name__}", case, "applies", repr(e)[:200])
+        return
+    got = set()
+
+    def walk(d):
+        for di in d.detection_items:
+            if isinstance(di, SigmaDetection):
+                walk(di)
+            elif di.field is not None and di.field.endswith("_M"):
+                got.add(di.field[:-2])
+
+    walk(rule.detection.detections["hs"])
+    # reference: the items present after the preceding items, and what was applied to each of them
+    hf = "hf" in pre
+    state = {"k": "v"} if "ps" in pre else {}
+    items = ([("FileMD5", {"hf"}, False), ("FileSHA1", {"hf"}, False)] if hf else [("Hashes", set(), False)]) + [("f1", set(), True)]
+
+    def st_ok():
+        return state.get("k") == "v"
+
+    exp = set()
+    if eval_group(groups[0], lambda n: hf):
+        for fld, applied, starts_a in items:
+            dleaf = lambda n: {"app_hf": "hf" in applied, "ms_a": starts_a, "st_kv": st_ok()}[n]
+            fleaf = lambda n: {"inc": fld in ("FileMD5", "Hashes", "f1")}[n]
+            if eval_group(groups[1], dleaf) and eval_group(groups[2], fleaf):
+                exp.add(fld)
+    st.state(["G", list(pre), sorted(got)])
+    res["outcomes"].add(h64(["G", sorted(got)]))
+    res["nontrivial"].add(h64(case))
+    if got != exp:
+        add_violation(res, "G:marker-set-differs-after-item-replaced-by-group:" + ("with-hf" if hf else "without-hf"), case, sorted(exp), sorted(got))
+
+
 NSH = 64
 
 
 def plan(tier, seed):
-    return list(range(NSH))
+    return [("G", i) for i in range(4)] + [("X", i) for i in range(8)] + list(range(NSH))
 
 
 def run_shard(shard, tier, seed):
     res = new_result()
     st = E.Stats(res)
+    if isinstance(shard, (tuple, list)) and shard[0] == "G":
+        for idx, (pre, marker, groups) in enumerate(space_G(tier)):
+            if idx % 4 == shard[1]:
+                st.history()
+                judge_G(res, st, pre, groups)
+        return res
+    if isinstance(shard, (tuple, list)) and shard[0] == "X":
+        for idx, (pre, marker, groups) in enumerate(space_X(tier)):
+            if idx % 8 == shard[1]:
+                st.history()
+                judge(res, st, pre, marker, groups)
+        return res
     for idx, (pre, marker, groups) in enumerate(space(tier)):
         if idx % NSH != shard:
             continue
@@ -462,6 +584,9 @@ def run_shard(shard, tier, seed):
 def replay(case):
     res = new_result()
     st = E.Stats(res)
+    if case.get("sub") == "G":
+        judge_G(res, st, tuple(case["pre"]), eval(case["groups"]))
+        return res["violations"]
     groups = eval(case["_groups"])  # repr of plain tuples/lists/strings written by this module
     judge(res, st, tuple(case["pre"]), case["marker"], groups, case.get("prev_rule", False))
     return res["violations"]
